@@ -370,3 +370,12 @@ def run(ctx):
     r3_outbound_filtered(ctx)
     r4_content_length(ctx)
     r5_names(ctx)
+
+
+_run_rules = run
+
+
+def run(ctx):
+    _run_rules(ctx)
+    from .. import boundaries
+    boundaries.check(ctx, 'C13.RB', 'C13')
